@@ -25,6 +25,12 @@ class RealClock(object):
     def time(self):
         return time.time()
 
+    def monotonic(self):
+        return time.monotonic()
+
+    def perf_counter(self):
+        return time.perf_counter()
+
     def advance(self, dt):
         pass
 
